@@ -110,7 +110,7 @@ def check_call(contract, args: dict, repo=None, quiet=True) -> RTResult:
     pre_env = dict(st.env)
     st.env["__pre__"] = pre_env
     for name, expr in contract.lets.items():
-        st.env[name] = REGISTRY.eval_clause(interp, st, expr)
+        st.env[name] = REGISTRY.eval_clause_value(interp, st, expr)
         pre_env[name] = st.env[name]
     for r in contract.requires:
         c = REGISTRY.eval_clause(interp, st, r)
@@ -164,7 +164,7 @@ def check_call(contract, args: dict, repo=None, quiet=True) -> RTResult:
     try:
         env["result"] = lift(out, rty) if out is not None else None
     except Outside as e:
-        res.status = "violated"
+        res.status = "violated" if contract.options.get("result_shape_is_contract") else "undecided"
         res.clause = "result-shape"
         res.detail = f"result does not have the declared structure: {e.msg}"
         return res
